@@ -64,17 +64,19 @@ type Task struct {
 	killed  bool
 
 	// scheduler-owned
-	st       taskState
-	op       opKind
-	opCh     unsafe.Pointer
-	opCases  []SelCase
-	opDef    bool
-	opPtr    unsafe.Pointer
-	opSite   string
-	until    int64
-	prio     int64
-	selIdx   int
-	isClient bool
+	st         taskState
+	op         opKind
+	opCh       unsafe.Pointer
+	opCases    []SelCase
+	opDef      bool
+	opPtr      unsafe.Pointer
+	opSite     string
+	until      int64
+	prio       int64
+	selIdx     int
+	isClient   bool
+	used       int64
+	usedAtRoot int64
 }
 
 type reqKind uint8
